@@ -566,10 +566,32 @@ Lemma vshift_wf n v s : wfb false s ->
   exists s', vshift n v s = Ok s' /\ wfb false s' /\ length (elems s') = length (elems s).
 Proof. apply shift_wf. Qed.
 
-Lemma lagged_wf h zero n value xs :
-  exists s', lagged h zero n value xs = Ok s' /\ wfb false s' /\ length (elems s') = length xs.
+Lemma lag_nonpos_wf h na value xs : na < length xs ->
+  wfb false (lag_nonpos h na value xs) /\ length (elems (lag_nonpos h na value xs)) = length xs.
 Proof.
-  unfold lagged. destruct (len_le_nabs (length xs) n) eqn:Eg.
+  intros Hlt. unfold lag_nonpos. cbn [wfb elems].
+  rewrite app_length, repeat_length, !map_length, combine_length, skipn_length.
+  repeat split; auto; lia.
+Qed.
+
+Lemma vdiff_wf n value xs :
+  exists s', vdiff n value xs = Ok s' /\ wfb false s' /\ length (elems s') = length xs.
+Proof.
+  unfold vdiff. cbv zeta. destruct (len_le_nabs (length xs) n) eqn:Eg.
+  { eexists. split; [reflexivity|]. cbn [wfb elems]. rewrite repeat_length. auto. }
+  apply nabs_lt in Eg.
+  destruct (0 <? n)%Z.
+  { unfold usub. replace (n_abs n <=? length xs) with true by (symmetry; apply Nat.leb_le; lia).
+    cbn [bind]. eexists. split; [reflexivity|]. cbn [wfb elems].
+    rewrite app_length, repeat_length, !map_length, combine_length, firstn_length, skipn_length.
+    repeat split; auto; lia. }
+  eexists. split; [reflexivity|]. apply lag_nonpos_wf. exact Eg.
+Qed.
+
+Lemma vpct_change_wf n xs :
+  exists s', vpct_change n xs = Ok s' /\ wfb false s' /\ length (elems s') = length xs.
+Proof.
+  unfold vpct_change. cbv zeta. destruct (len_le_nabs (length xs) n) eqn:Eg.
   { eexists. split; [reflexivity|]. cbn [wfb elems]. rewrite repeat_length. auto. }
   apply nabs_lt in Eg.
   destruct (0 <? n)%Z.
@@ -577,11 +599,7 @@ Proof.
     cbn [bind]. eexists. split; [reflexivity|]. cbn [wfb elems].
     rewrite !map_length, combine_length, app_length, repeat_length, firstn_length.
     repeat split; auto; lia. }
-  destruct (n <? 0)%Z.
-  { eexists. split; [reflexivity|]. cbn [wfb elems].
-    rewrite app_length, repeat_length, !map_length, combine_length, skipn_length.
-    repeat split; auto; lia. }
-  eexists. split; [reflexivity|]. cbn [wfb elems]. rewrite repeat_length. auto.
+  eexists. split; [reflexivity|]. apply lag_nonpos_wf. exact Eg.
 Qed.
 
 Lemma ffill_wf v s : wfb false s -> wfb false (ffill v s) /\ length (elems (ffill v s)) = length (elems s).
@@ -622,31 +640,18 @@ Proof. induction l as [|a l IH]; [auto|]. cbn. destruct (p a); cbn; lia. Qed.
 Lemma pad_length la i v n : length (elems (IPad la i v n)) = n.
 Proof. cbn [elems]. cbv zeta. rewrite app_length, firstn_length, repeat_length. lia. Qed.
 
-Lemma vpartition_wf kth sort xs : wfb false (vpartition kth sort xs).
+Lemma vpartition_wf kth sort xs :
+  wfb false (vpartition kth sort xs) /\ length (elems (vpartition kth sort xs)) = kth + 1.
 Proof.
   unfold vpartition.
   destruct (andb (count_valid xs =? kth + 1) (negb sort)) eqn:E1.
   { apply andb_true_iff in E1. destruct E1 as [E1 _]. apply Nat.eqb_eq in E1.
     cbn [wfb elems]. unfold count_valid in E1. auto. }
   destruct (count_valid xs <=? kth + 1) eqn:E2.
-  { destruct (negb sort); cbn [wfb]; [|auto]. rewrite pad_length. auto. }
+  { destruct (negb sort); cbn [wfb elems]; cbv zeta; rewrite !app_length, !firstn_length, !repeat_length;
+      repeat split; auto; lia. }
   apply Nat.leb_gt in E2. cbn [wfb elems]. rewrite firstn_length.
-  unfold count_valid in E2. pose proof (filter_length_le not_none xs). split; [lia|exact I].
-Qed.
-
-(* without sorting (and whenever more than kth+1 elements are valid) exactly kth+1 items come out *)
-Lemma vpartition_len kth sort xs :
-  sort = false \/ kth + 1 < count_valid xs ->
-  length (elems (vpartition kth sort xs)) = kth + 1.
-Proof.
-  intros H. pose proof (vpartition_wf kth sort xs) as Hw. revert Hw. unfold vpartition.
-  destruct (andb (count_valid xs =? kth + 1) (negb sort)) eqn:E1.
-  { cbn [wfb elems]. intros [Hl _]. symmetry. exact Hl. }
-  destruct (count_valid xs <=? kth + 1) eqn:E2.
-  { destruct sort; cbn [negb].
-    - apply Nat.leb_le in E2. destruct H as [H|H]; [discriminate|lia].
-    - cbn [wfb]. intros [Hl _]. cbn [elems] in *. symmetry. exact Hl. }
-  cbn [wfb elems]. intros [Hl _]. symmetry. exact Hl.
+  unfold count_valid in E2. pose proof (filter_length_le not_none xs). repeat split; lia.
 Qed.
 
 Lemma varg_partition_wf kth sort xs :
@@ -681,8 +686,28 @@ Proof. cbn. lia. Qed.
 
 Lemma range_i_wf a b st s : range_i a b st = Ok s -> wfb true s.
 Proof.
-  unfold range_i. destruct (st =? 0)%Z; [discriminate|]. destruct (Z.quot (b - a) st <? 0)%Z; [discriminate|].
+  unfold range_i. destruct (andb (negb (range_empty a b st)) (st =? 0)%Z); [discriminate|].
   intros E. injection E as <-. cbn. lia.
+Qed.
+
+(* the count of the repaired range: nothing when the direction is empty, else ceil((b - a) / step) *)
+Lemma range_count_spec a b st : (st <> 0)%Z ->
+  (range_empty a b st = true -> range_count a b st = 0) /\
+  (range_empty a b st = false ->
+     let c := Z.of_nat (range_count a b st) in
+     (0 < c /\ Z.abs st * (c - 1) < Z.abs (b - a) <= Z.abs st * c)%Z).
+Proof.
+  intros Hst. unfold range_count. split; intros He; rewrite He; [reflexivity|].
+  replace (st =? 0)%Z with false by (symmetry; apply Z.eqb_neq; exact Hst).
+  cbv zeta. unfold range_empty in He.
+  assert (Hd : (0 < Z.abs (b - a))%Z).
+  { destruct (0 <? st)%Z; [apply Z.leb_gt in He | apply Z.leb_gt in He]; lia. }
+  assert (Hs : (0 < Z.abs st)%Z) by lia.
+  set (d := Z.abs (b - a)) in *. set (s := Z.abs st) in *.
+  pose proof (Z.div_mod (d + s - 1) s ltac:(lia)) as Hdm.
+  pose proof (Z.mod_pos_bound (d + s - 1) s Hs) as Hm.
+  assert (Hq : (0 < (d + s - 1) / s)%Z) by (apply Z.div_str_pos; lia).
+  rewrite Z2Nat.id by lia. nia.
 Qed.
 
 Lemma create_safe s : wfb false s -> create s = CDone (elems s).
@@ -725,8 +750,8 @@ Proof.
   - injection E as <-. exact I.
   - destruct (bfill_wf value (IList xs) I) as (t & Et & Ht & _). rewrite Et in E. injection E as <-.
     apply wfb_weaken. exact Ht.
-  - destruct (lagged_wf vsub (VZ 0) n (match value with Some v => v | None => VNull end) xs) as (t & Et & Ht & _).
-    unfold vdiff in E. rewrite Et in E. injection E as <-. exact Ht.
+  - destruct (vdiff_wf n value xs) as (t & Et & Ht & _).
+    rewrite Et in E. injection E as <-. exact Ht.
   - destruct w as [|w].
     + cbn in E. discriminate.
     + destruct (rolling_wf (S w) xs) as (t & Et & Ht & _); [lia|]. rewrite Et in E. cbn [bind] in E.
